@@ -256,6 +256,29 @@ def ground_counts(ctx):
             err = float(np.nanmax(np.abs(got - ref)) / max(1e-300, float(np.nanmax(np.abs(ref)))))
             if not err <= 1e-5:
                 bad_h.append({"l_max": L, "scaled_by": kf, "relative_change": err})
+    # N of degree l and the power spectrum at degree l depend on the coefficients of degree l only -- also numerically, when the degrees differ by many orders of magnitude
+    from chmpy.shape.shape_descriptors import make_N_invariants as _mkN
+    bad_d = []
+    for L in range(1, 13):
+        c = rng.normal(size=(L + 1) ** 2) + 1j * rng.normal(size=(L + 1) ** 2)
+        for direction in (1, -1):
+            scale = np.concatenate([np.full(2 * l + 1, 10.0 ** (direction * (5 - l))) for l in range(L + 1)])
+            cs = c * scale
+            want = np.array([np.sqrt((np.abs(cs[l * l:(l + 1) ** 2]) ** 2).sum()) for l in range(L + 1)])
+            try:
+                got = np.asarray(_mkN(cs.copy()), dtype=float)
+                ps0, ps1 = np.asarray(_SHT(L).power_spectrum(c.copy()), dtype=float), np.asarray(_SHT(L).power_spectrum(cs.copy()), dtype=float)
+            except Exception as e:  # noqa
+                bad_d.append({"l_max": L, "raised": repr(e)[:160]})
+                continue
+            sl = np.array([10.0 ** (direction * (5 - l)) for l in range(L + 1)])
+            e1 = float(np.max(np.abs(got - want) / want)) if got.shape == want.shape else float("inf")
+            e2 = float(np.max(np.abs(ps1 - sl ** 2 * ps0) / (sl ** 2 * ps0))) if ps1.shape == ps0.shape == sl.shape else float("inf")
+            if not (e1 <= 1e-10 and e2 <= 1e-10):
+                bad_d.append({"l_max": L, "degree_l_scaled_by": f"10^({direction}*(5-l))", "N_relative_error": e1, "power_spectrum_relative_error": e2})
+    ctx.ground("shape_descriptors.make_N_invariants/per_degree_at_any_dynamic_range", not bad_d, clause="for l_max = 1..12 with the coefficients of degree l scaled by 10^(+-(5-l)): N_l == |c_l| and "
+               "power_spectrum_l scales with the square of the factor of degree l alone, each to 1e-10 RELATIVE to its own size (a degree is not polluted by a much larger one)",
+               detail=bad_d[:3], witness=bad_d[:2], fn=ctx.fn("chmpy.shape.shape_descriptors", "make_N_invariants"))
     ctx.ground("sht.SHT.power_spectrum/count_and_layouts", not bad_ps, clause="for l_max = 0..12 the power spectrum has l_max+1 entries and is the same for the compact layout of a real function "
                "and the full layout of the same function", detail=bad_ps[:3], witness=bad_ps[:2], fn=ctx.fn("chmpy.shape.sht", "SHT.power_spectrum"))
     ctx.ground("shape_descriptors.make_invariants/homogeneous", not bad_h, clause="for l_max = 0..12: make_invariants(k c) == k make_invariants(c) for k = 1e-14 and 1e9 (N and P; no absolute threshold)",
